@@ -30,41 +30,6 @@ import (
 	"verif/harness/common"
 )
 
-// ------------------------------------------------------------------ wire building (generator)
-
-func tlv(typ byte, val []byte) []byte {
-	if len(val) >= 253 {
-		panic("harness: long tlv")
-	}
-	return append([]byte{typ, byte(len(val))}, val...)
-}
-
-func natBytes(v uint64) []byte {
-	switch {
-	case v < 1<<8:
-		return []byte{byte(v)}
-	case v < 1<<16:
-		return []byte{byte(v >> 8), byte(v)}
-	case v < 1<<32:
-		return []byte{byte(v >> 24), byte(v >> 16), byte(v >> 8), byte(v)}
-	}
-	panic("harness: big nat")
-}
-
-// DataWire hand-encodes a small Data packet (Name, MetaInfo{FreshnessPeriod}?, Content, DigestSha256-less
-// signature block with an empty value: the CS never validates signatures).
-func DataWire(name enc.Name, freshMs int, content []byte) []byte {
-	var body []byte
-	body = append(body, name.Bytes()...)
-	if freshMs >= 0 {
-		body = append(body, tlv(0x14, tlv(0x19, natBytes(uint64(freshMs))))...)
-	}
-	body = append(body, tlv(0x15, content)...)
-	body = append(body, tlv(0x16, tlv(0x1b, []byte{0}))...)
-	body = append(body, tlv(0x17, nil)...)
-	return tlv(0x06, body)
-}
-
 // ------------------------------------------------------------------ generator
 
 func gen(g *common.Gen) {
